@@ -96,9 +96,9 @@ def unqChunks (item : Bytes) : List Bytes :=
   | none => [[37], item]
 
 /-- a loop that only appends chunks computes, once joined, the concatenation of the chunks -/
-theorem src_foldl_chunks (g : Bytes → List Bytes) (body : List Bytes → Bytes → List Bytes)
+theorem src_foldl_chunks {α : Type} (g : α → List Bytes) (body : List Bytes → α → List Bytes)
     (h : ∀ res item, body res item = res ++ g item) :
-    ∀ (l : List Bytes) (res : List Bytes),
+    ∀ (l : List α) (res : List Bytes),
       PyRtC06.joinEmpty (l.foldl body res) = res.flatten ++ l.flatMap (fun i => (g i).flatten) := by
   intro l
   induction l with
@@ -251,5 +251,148 @@ theorem src_unquote_to_bytes_eq_model (s : Text) :
 example : Src.urlutils.unquote_to_bytes [97, 37, 52, 49, 37, 52] = [97, 65, 37, 52] := by decide +kernel
 example : Src.urlutils.unquote_to_bytes [37, 101, 57, 37] = [233, 37] := by decide +kernel
 example : Src.urlutils.unquote_to_bytes [233] = [195, 169] := by decide +kernel
+
+/-! ## `unquote`: the loop over the regex split is the model's character loop `unqGo`
+
+`Src.urlutils.unquote s = C06.unquote s` (the call with the default `encoding` / `errors`).  The declared operations:
+`PyRtC06.asciiSplit` (= `_ASCII_RE.split`), `PyRtC06.pairsFrom1` (the index loop `range(1, len(bits), 2)`),
+`PyRtC06.decodeUtf8Replace` (proved equal to the model's `decodeR`).  `unqK acc L` says what `unqGo s acc` is in terms
+of the split `L` of `s` when `acc` is the (reversed) ASCII run in progress. -/
+
+theorem rt_decodeStep_eq : PyRtC06.decodeStep = C06.decodeStep := by
+  funext b0 rest
+  rfl
+
+theorem rt_decodeGo_eq : ∀ (f : Nat) (l : Bytes), PyRtC06.decodeGo f l = runF C06.decodeStep f l := by
+  intro f
+  induction f with
+  | zero => intro l; rfl
+  | succ f ih =>
+    intro l
+    cases l with
+    | nil => rfl
+    | cons x rest => simp [PyRtC06.decodeGo, runF, rt_decodeStep_eq, ih]
+
+theorem rt_decode_eq : PyRtC06.decodeUtf8Replace = C06.decodeR := by
+  funext bs
+  simp [PyRtC06.decodeUtf8Replace, decodeR, run, rt_decodeGo_eq]
+
+theorem utf8_ascii (a : Text) (h : ∀ x ∈ a, x < 128) : utf8 a = a := by
+  induction a with
+  | nil => rfl
+  | cons x a ih =>
+    have hx : x < 128 := h x (by simp)
+    have := ih (fun y hy => h y (by simp [hy]))
+    simp only [utf8, List.flatMap_cons] at this ⊢
+    rw [this]
+    simp [utf8Char, hx]
+
+/-- what the loop body contributes for one ASCII run: percent-decoded (as `unquote_to_bytes` does it: after encoding),
+    then read as UTF-8 -/
+def unqD (a : Text) : Text := decodeR (unqBytes (utf8 a))
+
+theorem unqD_ascii (a : Text) (h : ∀ x ∈ a, x < 128) : unqD a = decodeR (unqBytes a) := by
+  rw [unqD, utf8_ascii a h]
+
+theorem unqD_nil : unqD [] = [] := by simp [unqD, utf8, unqBytes_nil, decodeR_nil]
+
+def pairsDec (l : List Text) : Text := (PyRtC06.pairsFrom1 l).flatMap fun p => unqD p.1 ++ p.2
+
+theorem pairsDec_cons3 (n0 a n : Text) (t : List Text) :
+    pairsDec (n0 :: a :: n :: t) = unqD a ++ (n ++ pairsDec (n :: t)) := by
+  simp [pairsDec, PyRtC06.pairsFrom1]
+
+theorem pairsFrom1_head (x y : Text) (tl : List Text) :
+    PyRtC06.pairsFrom1 (x :: tl) = PyRtC06.pairsFrom1 (y :: tl) := by
+  match tl with
+  | [] => simp [PyRtC06.pairsFrom1]
+  | [_] => simp [PyRtC06.pairsFrom1]
+  | _ :: _ :: _ => simp [PyRtC06.pairsFrom1]
+
+theorem pairsDec_head (x y : Text) (tl : List Text) : pairsDec (x :: tl) = pairsDec (y :: tl) := by
+  simp only [pairsDec, pairsFrom1_head x y tl]
+
+def unqK (acc : Text) (l : List Text) : Text :=
+  match l with
+  | [] => unqD acc.reverse
+  | n0 :: tl =>
+    if n0 = [] then
+      match tl with
+      | a1 :: n1 :: t => unqD (acc.reverse ++ a1) ++ (n1 ++ pairsDec (n1 :: t))
+      | _ => unqD acc.reverse
+    else unqD acc.reverse ++ (n0 ++ pairsDec (n0 :: tl))
+
+theorem unqK_nil (l : List Text) : unqK [] l = l.headD [] ++ pairsDec l := by
+  match l with
+  | [] => simp [unqK, unqD_nil, pairsDec, PyRtC06.pairsFrom1]
+  | [n0] => by_cases h : n0 = [] <;> simp [unqK, unqD_nil, pairsDec, PyRtC06.pairsFrom1, h]
+  | [n0, a] => by_cases h : n0 = [] <;> simp [unqK, unqD_nil, pairsDec, PyRtC06.pairsFrom1, h]
+  | n0 :: a :: n :: t =>
+    by_cases h : n0 = []
+    · simp [unqK, h, pairsDec_cons3]
+    · simp [unqK, unqD_nil, h]
+
+theorem unqGo_eq_unqK : ∀ (s acc : Text), (∀ x ∈ acc, x < 128) → unqGo s acc = unqK acc (PyRtC06.asciiSplit s) := by
+  intro s
+  induction s with
+  | nil =>
+    intro acc hacc
+    simp [unqGo, PyRtC06.asciiSplit, unqK, unqD_ascii acc.reverse (by simpa using hacc)]
+  | cons c r ih =>
+    intro acc hacc
+    have hodd := PyRtC06.asciiSplit_length r
+    have hD : decodeR (unqBytes acc.reverse) = unqD acc.reverse :=
+      (unqD_ascii acc.reverse (by simpa using hacc)).symm
+    cases hsp : PyRtC06.asciiSplit r with
+    | nil => rw [hsp] at hodd; simp at hodd
+    | cons m0 tl =>
+      rw [hsp] at hodd
+      by_cases hc : c < 128
+      · have hacc2 : ∀ x ∈ c :: acc, x < 128 := by
+          intro x hx; rcases List.mem_cons.1 hx with rfl | hx
+          · exact hc
+          · exact hacc x hx
+        have e := ih (c :: acc) hacc2
+        rw [hsp] at e
+        simp only [unqGo, hc, if_true]
+        rw [e]
+        unfold PyRtC06.asciiSplit
+        rw [hsp]
+        simp only [hc, if_true]
+        cases m0 with
+        | nil =>
+          cases tl with
+          | nil => simp [unqK, pairsDec, PyRtC06.pairsFrom1]
+          | cons a1 t =>
+            cases t with
+            | nil => simp at hodd
+            | cons n1 t2 => simp [unqK]
+        | cons x m => simp [unqK]
+      · have e := ih [] (by simp)
+        rw [hsp, unqK_nil] at e
+        simp only [unqGo, hc, if_false]
+        rw [e, hD]
+        unfold PyRtC06.asciiSplit
+        rw [hsp]
+        simp only [hc, if_false]
+        simp [unqK, pairsDec_head (c :: m0) m0 tl]
+
+theorem src_unquote_eq_model (s : Text) : Src.urlutils.unquote s = C06.unquote s := by
+  unfold Src.urlutils.unquote
+  by_cases hp : 37 ∈ s
+  · have hc : s.contains 37 = true := by simpa using hp
+    simp only [hc, Bool.not_true, Bool.false_eq_true, if_false]
+    rw [src_foldl_chunks (fun p => [unqD p.1, p.2])]
+    · rw [C06.unquote, unqGo_eq_unqK s [] (by simp), unqK_nil]
+      simp [pairsDec]
+    · intro res item
+      simp [rt_decode_eq, src_unquote_to_bytes_eq_model, unqD]
+  · have hc : s.contains 37 = false := by simpa using hp
+    simp [hc, hp, unquote_no_pct s hp]
+
+-- `%c3%a9é%41` → `ééA` (an escape sequence decoded as UTF-8, a raw non-ASCII character kept); no `%`: unchanged
+example : Src.urlutils.unquote [37, 99, 51, 37, 97, 57, 233, 37, 52, 49] = [233, 233, 65] := by decide +kernel
+example : Src.urlutils.unquote [97, 233, 43] = [97, 233, 43] := by decide +kernel
+example : Src.urlutils.unquote [37, 101, 57] = [65533] := by decide +kernel
 
 end C06
